@@ -68,6 +68,24 @@ def r141(db, ctx):
                     if b2 is None or ('elem', b2['$src'], b2['$L']) not in ev:
                         probs.append(f'column index {X.show(col, 80)} is neither as_index(paired symbol) nor the column counter of the copied row')
                 if probs:
+                    # the same relation in index-loop form (`for k in 0..n { let v = &input[k]; let j = symbols[k].as_index(); for i in 0..v.len() { m[i][j] = v[i] } }`):
+                    # decided on the canonical element form of lm/iteralg.py
+                    from lm import iteralg
+                    CA = iteralg.Canon(f, R)
+                    tc, vc = CA.canon(tg), CA.canon(v)
+                    bt = m(('at', ('at', '$m', '$row'), '$col'), tc)
+                    if bt is not None:
+                        vecs = [x for x in X.walk(vc) if x[0] == 'at' and x[2] == bt['$row']]
+                        rpos = [x for x in X.walk(bt['$row']) if iteralg.is_pos(x)]
+                        cm = m(('call~', 'Symbol::as_index', ('$sym',)), bt['$col'])
+                        if vecs and rpos and cm is not None:
+                            vec = vecs[0][1]
+                            own = any((c_[0] == 'len' and c_[1] == vec) or (c_[0] == 'sub' and c_[2] == ('k', 0) and common.is_len_of(c_[1], vec)) for c_ in CA.extents.get(rpos[0][1], []))
+                            kv = {x for x in X.walk(vec) if iteralg.is_pos(x) or x[0] == 'elem'}
+                            ks = {x for x in X.walk(cm['$sym']) if iteralg.is_pos(x) or x[0] == 'elem'}
+                            if own and (kv & ks):
+                                probs = []
+                if probs:
                     ctx.fail('R14.1', f, 'matrix fill: ' + X.show(tg, 90), '; '.join(probs), span=s['span'])
                 else:
                     n += 1
